@@ -30,6 +30,8 @@ type Answer struct {
 	// EchoQuestion, if set, replaces the question section of the response (a server that answers ANOTHER question than the one
 	// it was asked: a mix-up in a forwarder, an attacker on the path of a plain-HTTP hop)
 	EchoQuestion *dnsref.Question
+	// AfterOPT: additional records that FOLLOW the OPT record of an extended rcode (RFC 6891 does not give the OPT record a place)
+	AfterOPT []dnsref.RR
 }
 
 // Unparseable is the logged name of a query the independent codec could not parse.
@@ -114,6 +116,7 @@ func (s *Server) RoundTrip(req *http.Request) (*http.Response, error) {
 	m.Sec[2] = a.Additional
 	if a.RCode > 15 {
 		m.Sec[2] = append(m.Sec[2], dnsref.RR{Name: "", Type: dnsref.TypeOPT, Class: 1232, TTL: uint32(a.RCode>>4) << 24, Fields: dnsref.OPT()})
+		m.Sec[2] = append(m.Sec[2], a.AfterOPT...)
 	}
 	return resp(req, 200, m.Encode(true), a.NoLength), nil
 }
